@@ -17,6 +17,7 @@ import (
 	"errors"
 	"fmt"
 	"math"
+	"os"
 	"sort"
 
 	ics23 "github.com/cosmos/ics23/go"
@@ -86,6 +87,9 @@ type world struct {
 	crashAt uint64 // the process dies when about to issue this physical op (0 = never)
 	crashed bool
 
+	failSyncOnly  uint64
+	failCancelled bool
+
 	// tainted: a crash image cut inside a multi-write SaveVersion was recovered
 	// from; debris of the unfinished save stays on this disk for good.
 	tainted bool
@@ -107,11 +111,21 @@ type world struct {
 func (w *world) hook() {
 	w.mach.OnOp = func(string, string, int) { w.applied++ }
 	w.mach.Yield = func(op string) {
+		// an injected write error must hit SaveVersion's final commit write only (see
+		// the note above): with Sync on, the commit is the one WriteSync
+		if w.failSyncOnly != 0 && w.mach.Ops+1 == w.failSyncOnly && op == "iavl.Batch.Write" {
+			delete(w.mach.FailAt, w.failSyncOnly)
+			w.failSyncOnly = 0
+			w.failCancelled = true
+		}
 		if w.crashAt == 0 || w.crashed {
 			return
 		}
 		switch op {
 		case "iavl.Set", "iavl.SetSync", "iavl.Delete", "iavl.DeleteSync", "iavl.Batch.Write", "iavl.Batch.WriteSync":
+			if w.crashAt == 0 {
+				break
+			}
 			if w.mach.Ops+1 >= w.crashAt {
 				w.mach.Dead = true
 				w.crashed = true
@@ -911,6 +925,11 @@ func (s *isim) saveAtOldVersion() {
 	s.r.Probe("save_at_old_version_idempotent")
 	s.loaded = next
 	s.session = nil
+	if !s.cf.skipFast {
+		// the idempotent path keeps the session's unsaved fast-node maps; Rollback is
+		// the documented way to get a clean working tree
+		s.t.Rollback()
+	}
 }
 
 func (s *isim) opRollback() {
@@ -1471,14 +1490,29 @@ func (s *isim) opSaveWithError() {
 		return
 	}
 	nops := s.dryRunSave()
+	if os.Getenv("VERIF_DEBUG") != "" {
+		fmt.Fprintf(os.Stderr, "DEBUG opSaveWithError nops=%d cfg=%+v session=%d loaded=%d latest=%d\n", nops, s.cf, len(s.session), s.loaded, s.st.latest)
+		for _, l := range s.c.Log[max(0, len(s.c.Log)-40):] {
+			fmt.Fprintf(os.Stderr, "   %s\n", l)
+		}
+	}
 	post := s.stateAfterSave(nil)
 	from := s.w.applied
 	at := s.w.mach.Ops + uint64(nops)
 	s.w.mach.FailAt[at] = true
+	s.w.failCancelled = false
+	if s.cf.sync {
+		s.w.failSyncOnly = at
+	}
 	before := s.w.mach.Counters["injected_error"]
-	_, _, err := s.t.SaveVersion()
+	h, ver, err := s.t.SaveVersion()
 	delete(s.w.mach.FailAt, at)
+	s.w.failSyncOnly = 0
 	fired := s.w.mach.Counters["injected_error"] > before
+	if s.w.failCancelled {
+		kernel.Harnessf("SaveVersion's write #%d was not its commit write (dry run said %d writes)", nops, nops)
+	}
+	_, _ = h, ver
 	s.c.Event("SaveVersion with a write error injected into its last write (#%d) -> fired=%v err=%v", nops, fired, err != nil)
 	if !fired {
 		kernel.Harnessf("SaveVersion issued fewer writes (%d) than its dry run (%d)", s.w.applied-from, nops)
